@@ -153,6 +153,18 @@ CHECKS.update({
             "DESIGN.md 4 C18"),
 })
 
+CHECKS.update({
+    "C19": ("Hypothesis generated search; column model of PandasStore.save over all write_data/write_axes combinations and include/exclude lists",
+            "Runs generated through PandasStream (1-3 contexts with disjoint windows, stream ids with dots, spaces, dashes, "
+            "unicode, leading digits/underscores and colliding pairs) are stored with every (write_data, write_axes) "
+            "combination, include/exclude lists over stream ids, test names, test functions and non-matching names, "
+            "optionally after compute_aggregate; the frame is compared with a column model (row count/order, one CF-safe "
+            "column per passing result with flags on evaluated rows and nulls elsewhere, no unexpected column, data and axis "
+            "columns, roll-up == pointwise aggregate). cf_safe_name is checked on arbitrary text.",
+            "open finding K-7 (sanitised-name collision) excluded by its classifier; idempotence of cf_safe_name is not "
+            "demanded (the statement does not)", "DESIGN.md 4 C19"),
+})
+
 NOT_APPLICABLE = {}
 
 
